@@ -204,6 +204,10 @@ class ClassRef:
     def bases(self):
         out = []
         self.incomplete = getattr(self, "incomplete", False)
+        ov = getattr(self, "override_bases", None)
+        if ov is not None:
+            # a contract models ``cls.__bases__ = ...`` (backend mixins swapped in at run time)
+            return list(ov)
         for b in self.node.bases:
             bname = ast.unparse(b)
             if bname in ("object",):
